@@ -863,6 +863,9 @@ class Must:
                 # result not tested: the call itself is crossed on every path through it; the Ok-ness is unknown,
                 # so it does not count (conservative: obligation not discharged through this call)
                 pass
+        extra = getattr(self, 'extra_cut', None)
+        if extra is not None:
+            cut |= set(extra(fn))  # edges on which the obligation is void (e.g. the cached value is known to be absent)
         return cut
 
     def passes(self, fn, member_set):
